@@ -940,6 +940,8 @@ class Walker:
             res = self.prog.resolve_dotted(func.module, node.id)
             if res and res[0] in ("class", "func"):
                 return [("val", Ref(res[1]), st)]
+        if node.id in _BUILTIN_TYPES and (func is None or (node.id not in func.module.globals and node.id not in func.module.imports)):
+            return [("val", Const(_BUILTIN_TYPES[node.id]), st)]
         # module-level constant?
         if func is not None and node.id in func.module.globals:
             vals = func.module.globals[node.id]
@@ -982,6 +984,10 @@ class Walker:
             if base.kind == "const" and idx.kind == "const":
                 try:
                     return [("val", Const(base.value[idx.value]), s)]
+                except (KeyError, IndexError) as exc:
+                    # the same lookup fails the same way at run time
+                    s.add(Event("raise", node, type(exc).__name__, self.frame, "implicit"))
+                    return [("raise", type(exc).__name__, s)]
                 except Exception:
                     return [("val", UNK, s)]
             return [("val", UNK, s)]
@@ -1127,7 +1133,18 @@ class Walker:
 
     def e_Dict(self, node, st):
         parts = [k for k in node.keys if k is not None] + list(node.values)
-        return self._seq(parts, st, lambda vals, s: [("val", TRUTHY if node.keys else Const({}), s)])
+
+        def cont(vals, s):
+            if not node.keys:
+                return [("val", Const({}), s)]
+            if all(k is not None for k in node.keys) and all(v.kind == "const" for v in vals):
+                n = len(node.keys)
+                try:
+                    return [("val", Const({vals[i].value: vals[n + i].value for i in range(n)}), s)]
+                except TypeError:
+                    pass
+            return [("val", TRUTHY, s)]
+        return self._seq(parts, st, cont)
 
     def e_JoinedStr(self, node, st):
         parts = [v.value for v in node.values if isinstance(v, ast.FormattedValue)]
@@ -1245,9 +1262,21 @@ class Walker:
         func, concrete = self.frame
         name = target.name if target.kind in ("ext",) else None
         # -- builtins with known semantics
+        if name == "builtins.isinstance" and len(args) == 2 and args[0].kind == "const" and args[1].kind == "const" \
+                and (isinstance(args[1].value, type) or (isinstance(args[1].value, tuple) and all(isinstance(t_, type) for t_ in args[1].value))) \
+                and type(args[0].value) in _BUILTIN_TYPES.values() and norm(node) not in s.facts:
+            return [("val", Const(isinstance(args[0].value, args[1].value)), s)]
         if name == "builtins.isinstance" or name == "builtins.hasattr" or name == "builtins.callable":
             fact = s.facts.get(norm(node))
             return [("val", fact if fact is not None else UNK, s)]
+        if name == "builtins.type" and len(args) == 1 and args[0].kind == "const" and type(args[0].value) in _BUILTIN_TYPES.values():
+            return [("val", Const(type(args[0].value)), s)]
+        if name in ("builtins.tuple", "builtins.list", "builtins.set", "builtins.frozenset", "builtins.sorted") and len(args) == 1 and not kws \
+                and args[0].kind == "const" and isinstance(args[0].value, (tuple, list, set, frozenset, dict, str)):
+            try:
+                return [("val", Const({"tuple": tuple, "list": list, "set": set, "frozenset": frozenset, "sorted": sorted}[name.split(".")[-1]](args[0].value)), s)]
+            except TypeError:
+                pass
         if name == "builtins.len" and args and args[0].kind == "const":
             try:
                 return [("val", Const(len(args[0].value)), s)]
@@ -1310,6 +1339,8 @@ class Walker:
         # -- summaries
         val = None
         if self.call_value is not None:
+            # the evaluated arguments of the call being summarised are available to the hook as walker.cur_args / cur_kws
+            self.cur_args, self.cur_kws = args, kws
             val = self.call_value(node, target, s)
         if val is None and target.kind == "ctor":
             val = TRUTHY
@@ -1533,6 +1564,10 @@ def _is_global_written(prog: Program, mod, name: str) -> bool:
                 cache.update(n.names)
         mod._gw = cache
     return name in cache
+
+
+_BUILTIN_TYPES = {"dict": dict, "list": list, "str": str, "int": int, "bytes": bytes, "tuple": tuple, "set": set, "frozenset": frozenset,
+                  "float": float, "bool": bool}
 
 
 def _callee_locals(func):
